@@ -2,6 +2,7 @@ package sim
 
 import (
 	"fmt"
+	"pgregory.net/rapid"
 	"sort"
 	"strings"
 )
@@ -145,4 +146,55 @@ func JudgeLivelock(w *World) *Verdict {
 	add(f.Inconclusive, "inconclusive:still-evicting-at-horizon-without-repeat")
 	v.Nontrivial = f.Evictions > 0
 	return v
+}
+
+// GenTieFamily builds closed systems in which sibling queues are exact ties for the fair-share division: equal
+// quota, equal over-quota weight, identical one-GPU preemptible workloads, a saturated cluster and unequal current
+// holdings. Whatever tie-break decides who gets the leftover units, it has to be a function of the fixed inputs;
+// if it follows the current allocation the system oscillates.
+func GenTieFamily(t *rapid.T) *World {
+	w := &World{Family: "tie"}
+	c := &w.Config
+	c.FullHierarchy = true
+	c.PlacementGPU = pickS(t, "placementGpu", "binpack", "spread")
+	c.PlacementCPU = "binpack"
+	c.MaxConsolidation = 16
+	c.Actions = [][]string{nil, {"allocate", "reclaim"}, {"allocate", "consolidation", "reclaim", "preempt"}}[uniform(t, 3, "actions")]
+	nNodes := between(t, 1, 2, "nNodes")
+	gpn := pickInt(t, "gpusPerNode", 1, 2, 3, 4, 5)
+	total := nNodes * gpn
+	for i := 0; i < nNodes; i++ {
+		w.Nodes = append(w.Nodes, Node{Name: fmt.Sprintf("n%d", i), GPUs: gpn, GPUMem: 16000, CPU: 32000, MemMB: 65536, Pods: 110, Labels: map[string]string{}})
+	}
+	free := QRes{Quota: -1, Limit: -1, Weight: 1}
+	nq := between(t, 2, 3, "queues")
+	quota := float64(between(t, 0, total/nq, "quota"))
+	weight := pickF(t, "weight", 1, 1, 2)
+	w.Queues = []Queue{{Name: "root", GPU: QRes{Quota: float64(total), Limit: -1, Weight: 1}, CPU: free, Mem: free}}
+	for q := 0; q < nq; q++ {
+		w.Queues = append(w.Queues, Queue{Name: fmt.Sprintf("q%d", q), Parent: "root", GPU: QRes{Quota: quota, Limit: -1, Weight: weight}, CPU: free, Mem: free, CreatedMin: 100 - q})
+	}
+	// every queue wants more than any share it can get; the GPUs are handed out unevenly to start with
+	slot := 0
+	for q := 0; q < nq; q++ {
+		jobs := total/nq + 2
+		running := between(t, 0, jobs, fmt.Sprintf("running%d", q))
+		for j := 0; j < jobs; j++ {
+			name := fmt.Sprintf("q%dj%d", q, j)
+			p := Pod{Name: name + "-p0", CPU: 100, MemMB: 64, GPUs: 1, State: Pending, CreatedMin: 50 + j}
+			if j < running && slot < total {
+				p.State, p.Node = Running, fmt.Sprintf("n%d", slot/gpn)
+				slot++
+			}
+			g := Group{Name: name, Queue: fmt.Sprintf("q%d", q), PriorityClass: "train", Preemptibility: "preemptible", MinMember: 1, CreatedMin: 50 + j, Pods: []Pod{p}}
+			if p.State == Running {
+				g.LastStartMin = 1000
+			}
+			w.Groups = append(w.Groups, g)
+		}
+	}
+	for i := 0; i < between(t, 8, 14, "cycles"); i++ {
+		w.Cycles = append(w.Cycles, CycleScript{BindMode: 0, TermLinger: pickInt(t, "linger", 0, 0, 1), RecreateEvicted: true, Salt: i})
+	}
+	return w
 }
